@@ -7,7 +7,8 @@
                 Done r       the function returned / raised from inside the loop with result r
    pyres A    result type for target functions whose hand model has no error enum
    py_index   xs[i] for an arbitrary integer index with Python's semantics (negative indices
-              count from the end, None = IndexError) *)
+              count from the end, None = IndexError)
+   py_range   range(a, b) as the list it iterates over *)
 From MoPep Require Import Model.Base.
 Open Scope Z_scope.
 
@@ -37,3 +38,6 @@ Definition py_slice_from {A} (xs : list A) (a : Z) : list A :=
 (* max(f x for x in xs): None = ValueError (empty sequence) *)
 Definition py_max_map {A} (f : A -> Z) (xs : list A) : option Z :=
   match xs with [] => None | x :: t => Some (fold_left Z.max (map f t) (f x)) end.
+
+(* range(a, b): a, a + 1, .., b - 1 (empty when b <= a) *)
+Definition py_range (a b : Z) : list Z := range_from a (Z.to_nat (b - a)).
